@@ -21,7 +21,7 @@ PROPERTIES = {
         ],
         not_reached=[
             "numeric conditioning of Euler-angle extraction near gimbal lock (A1)",
-            "following <field> / VectorField.followFrom (numpy loop), on <region> (projection onto regions: C03/C16), `relative to` with vector fields",
+            "projection onto regions used by `on <region>` (abstract call here: C03/C16); `relative to` with fields of different value types (TypeError arm)",
             "random (distribution-valued) arguments of the operators: lifting is C05",
         ],
     )
